@@ -29,6 +29,7 @@ def run(ctx):
     ctx.do(SI.rule_pt1, [SI.CP])
     ctx.do(CA.rule_c2, "ProjectiveObject", scope=ctx.scope(ENTRIES))
     ctx.do(SH.rule_sh6)
+    ctx.do(SI.rule_pm1, ["geometry_tools/complex_projective.py"])
     ctx.do(u1, ENTRIES, min_functions=20)
     ctx.r.assume("stereographic formulas, Moebius images, double complement "
                  "and Fubini-Study quantities are numerical and not decided")
